@@ -376,6 +376,9 @@ class Library:
             return 1
         if attr in ("block_until_ready", "tolist", "copy"):
             return lambda ex_: o
+        if attr in ("max", "min"):
+            from .libmodels import axiomatize_max
+            return lambda ex_, axis=None: axiomatize_max(ex_, [], o, attr)
         raise Unsupported(f"array attribute {attr}")
 
     def at_set(self, ex, at, v, how, node):
